@@ -12,7 +12,7 @@ from nverif.engine import Prop, Violation
 from nverif.oracle.rational import lagrange_derivative_weights, poly_eval, poly_deriv
 
 EPS = 2.0 ** -52
-TOL_W = 2e-11         # relative to max_i |W[k][i]| * kappa, kappa = diameter / ((m-1) * smallest gap) >= 1
+TOL_W = 2e-12         # relative to max_i |W[k][i]| * kappa, kappa = diameter / ((m-1) * smallest gap) >= 1
 
 
 @st.composite
@@ -40,7 +40,7 @@ def node_case(draw):
     if kind == 'onesided':
         x0kind = draw(st.sampled_from(['end', 'outside']))
     else:
-        x0kind = draw(st.sampled_from(['node', 'inside', 'outside', 'zero', 'centre']))
+        x0kind = draw(st.sampled_from(['node', 'inside', 'outside', 'zero', 'centre', 'far']))
     if x0kind == 'node':
         x0 = nodes[draw(st.integers(0, m - 1))]
     elif x0kind == 'end':
@@ -50,6 +50,9 @@ def node_case(draw):
     elif x0kind == 'outside':
         x0 = draw(st.sampled_from([lo - diam * draw(st.floats(0.01, 1.0)),
                                    hi + diam * draw(st.floats(0.01, 1.0))]))
+    elif x0kind == 'far':           # extrapolation from far away: 10 .. 1e4 diameters outside
+        far = 10.0 ** draw(st.floats(1.0, 4.0))
+        x0 = draw(st.sampled_from([lo - diam * far, hi + diam * far]))
     elif x0kind == 'centre':
         x0 = nodes[m // 2]
     else:
@@ -71,14 +74,14 @@ class C15(Prop):
     title = 'fd_weights equal the exact Lagrange-derivative weights for any nodes'
     rule = ('Hypothesis draws 2..14 distinct nodes (uniform / jittered / random / clustered with gaps '
             'down to 1e-6 relative / one-sided; sorted, reversed or permuted), x0 on a node, inside, '
-            'outside by up to one diameter or 0, and n < len(x). Oracle: Lagrange basis expanded in '
+            'outside by up to one diameter, far outside (10..1e4 diameters) or 0, and n < len(x). Oracle: Lagrange basis expanded in '
             'Fractions from the same floats. Non-trivial = at least 4 nodes and (nodes non-uniform or '
             'x0 not the centre node); distinct by (nodes, x0, n).')
     assumptions = ('python fractions.Fraction arithmetic is exact',
-                   'tolerance 2e-11 * max_i|W[k][i]| * kappa per row, kappa = diameter / ((m-1) * smallest node gap) '
-                   '(conditioning of the node set; 1 for uniform nodes), calibrated >= 10x above the worst seen')
+                   'tolerance 2e-12 * max_i|W[k][i]| * kappa per row, kappa = diameter / ((m-1) * smallest node gap) '
+                   '(conditioning of the node set; 1 for uniform nodes), calibrated 100x above the worst seen (86 eps kappa over 2e5 cases)')
     constants = {'TOL_W': TOL_W}
-    examples = {'quick': 150, 'thorough': 4000}
+    examples = {'quick': 500, 'thorough': 4000}
 
     def strategy(self, tier):
         return node_case()
@@ -128,18 +131,25 @@ class C15(Prop):
                 i = max(range(m), key=lambda i: abs(Fraction(float(row[i])) - W[k][i]))
                 raise Violation('weights', 'row %d entry %d: library %r, exact %r (rel. to max weight %.3g)'
                                 % (k, i, float(row[i]), float(W[k][i]), ratio), k=k, i=i)
-            # applying the (float) row exactly to exact samples gives p^(k)(x0)
-            applied = sum(Fraction(float(row[i])) * samples[i] for i in range(m))
+            # applying the (float) row exactly to exact samples gives p^(k)(x0).  The exact weights do so
+            # identically (checked: it ties the Lagrange oracle to plain polynomial differentiation), hence
+            # applied - exact = sum_i (row_i - W_i) p_i, bounded by max_i|row_i - W_i| * sum_i|p_i|.  (The
+            # sharper scale sum_i|W_i p_i| is not a rounding bound: the largest weight can sit on a node where
+            # p vanishes - two nodes, x0 far outside, seen at seed 7.)
             exact = poly_eval(poly_deriv(coefs, k), Fraction(0)) if k < m else Fraction(0)
-            cond = sum(abs(W[k][i] * samples[i]) for i in range(m))
+            if sum(W[k][i] * samples[i] for i in range(m)) != exact:
+                raise RuntimeError('oracle inconsistency: exact weights do not differentiate the polynomial')
+            applied = sum(Fraction(float(row[i])) * samples[i] for i in range(m))
+            cond = wmax * sum(abs(v) for v in samples)
             if cond > 0:
                 r2 = float(abs(applied - exact) / cond)
-                ctx.track('poly_err/(eps*sum|W p|)', r2 / EPS)
-                if r2 > TOL_W * m * kappa:
+                ctx.track('poly_err/(eps*max|W|*sum|p|*kappa)', r2 / EPS / kappa)
+                if r2 > TOL_W * kappa:
                     raise Violation('polynomial', 'row %d applied to a degree<%d polynomial gives %r, '
                                     'exact %r' % (k, m, float(applied), float(exact)), k=k)
             rs = sum(Fraction(float(v)) for v in row)
             target = 1 if k == 0 else 0
+            ctx.track('rowsum_err/(eps*max|W|*m*kappa)', float(abs(rs - target)) / (EPS * m * fw * kappa))
             if float(abs(rs - target)) > TOL_W * m * fw * kappa:
                 raise Violation('row-sum', 'row %d sums to %r instead of %d' % (k, float(rs), target), k=k)
         uniform = case['kind'] in ('uniform', 'onesided')
